@@ -448,8 +448,9 @@ func Project(c *Case, peerAddr string, status int, ruleTag, echo string, up *req
 				}
 			}
 
+			// visible = readable by name or through the map of all headers
 			for _, n := range order {
-				if v.Headers[Names[n]] != "" {
+				if v.Headers[Names[n]] != "" || v.Headers["all:"+Names[n]] != "" {
 					o.Visible = append(o.Visible, n)
 				}
 			}
